@@ -325,8 +325,9 @@ pub fn run(tier: &str) -> i32 {
     sweep_pairs(&st, "C15", &fams, &tables, &|pa, pb, op, _tol, _, loc| {
         check(pa, pb, op, loc)
     });
-    st.family(&format!("f32: input events of the {} near-collinear apex fans (x 2 operand orders): Ord and compare_segments against the exact angular / vertical order", super::c10::N_FANS));
-    for k in 0..super::c10::N_FANS {
+    let n_fans = if thorough { 40_000 } else { 4_000 };
+    st.family(&format!("f32: input events of {n_fans} near-collinear apex fans (x 2 operand orders): Ord and compare_segments against the exact angular / vertical order"));
+    for k in 0..n_fans {
         for sw in [false, true] {
             st.state(true);
             st.trans(1);
